@@ -118,17 +118,17 @@ class FutureConnector(Connector):
         )
 
     async def deploy(self, external: bool) -> None:
-        # noinspection PyArgumentList
-        connector = self.type(
-            deployment_name=self.deployment_name,
-            config_dir=self.config_dir,
-            transferBufferSize=self.transferBufferSize,
-            **self.parameters,
-        )
         if logger.isEnabledFor(logging.INFO):
             if not external:
                 logger.info(f"DEPLOYING {self.deployment_name}")
         try:
+            # noinspection PyArgumentList
+            connector = self.type(
+                deployment_name=self.deployment_name,
+                config_dir=self.config_dir,
+                transferBufferSize=self.transferBufferSize,
+                **self.parameters,
+            )
             await connector.deploy(external)
         except Exception:
             self._connector = None
